@@ -573,6 +573,9 @@ def run_case(d):
             else:
                 flags = [('pos', r['lp']), ('vel', r['lv'])]
                 expect = None
+                if r['load'] is None and tk in ('rvint', 'pack9') and (r['lp'], r['lv']) in ((True, None), (None, True)):
+                    # exactly one column was named (flag True) and nothing was said about the other: it was not requested
+                    expect = ['pos'] if r['lp'] else ['vel']
                 if r['load'] is not None:
                     contradict = any((fl is True and c not in r['load']) or (fl is False and c in r['load']) for c, fl in flags)
                     if contradict:
